@@ -7,7 +7,7 @@ CONSTANTS
   WPos = {0, 2, 3, 4, 8}
   F0s = {0, 3, 5, 8}
   FdKinds = {"anon", "rw", "ro", "bad"}
-  MaxOps = 5
+  MaxOps = 4
   MaxWrites = 2
   MaxObjs = 2
   ExportHist = FALSE
